@@ -313,6 +313,21 @@ func runC14(c *Check) {
 					}
 				}
 			}
+			// … and it does end then: from the Done() case a return is reached without another round of the select
+			for _, e := range done {
+				var sels []ssa.Instruction
+				for _, si := range Selects(L) {
+					sels = append(sels, si.Sel)
+				}
+				re := ReachEdge(e, NewCut().AddInstrs(sels...))
+				ends := false
+				for _, ret := range Returns(L) {
+					if re[ret] {
+						ends = true
+					}
+				}
+				c.Report(ends, P+".O3", "CLEANUP-ENDS-WITH-ITS-CONTEXT", L, e.From.Instrs[len(e.From.Instrs)-1].Pos(), "Done() case of the clean-up loop", "when its context ends the clean-up goroutine returns (it does not go on sweeping for ever)")
+			}
 			for i, ret := range Returns(L) {
 				c.Report(len(done) > 0 && GuardedBy(L, ret, done), P+".O3", "CLEANUP-ENDS-ONLY-WITH-ITS-CONTEXT", L, ret.Pos(), fmt.Sprintf("clean-up loop return#%d", i), "the clean-up loop ends only through its context's Done() case (an idle or empty repository must keep being swept: keys added later have to expire too)")
 			}
@@ -626,6 +641,27 @@ func c14Dedup(c *Check, P string) {
 	eOK, eFail := NilEdges(pub, func(v ssa.Value) bool { return AllOrigins(v, ResultOfAny(dcalls, 1)) })
 	dup, fresh := BoolEdges(pub, func(v ssa.Value) bool { return AllOrigins(v, ResultOfAny(dcalls, 0)) })
 	c.Floor(P+".O2", "decorator: tests of the error and of the verdict", b2i(len(eOK) > 0)+b2i(len(dup) > 0), 2)
+	// a duplicate ends the handling of that one message, not of the batch: from the 'duplicate' edge the wrapped Publish is
+	// reached only round the loop (through the next IsDuplicate call or the loop's own exit), never straight out of it
+	for _, e := range dup {
+		for _, dc := range dcalls {
+			if !InLoop(dc) {
+				continue
+			}
+			hdr := loopHeaderOfInstr(dc)
+			if hdr == nil {
+				continue
+			}
+			re := ReachEdge(e, NewCut().AddInstrs(firstInstr(hdr)))
+			okL := true
+			for _, ip := range inner {
+				if re[ip] {
+					okL = false
+				}
+			}
+			c.Report(okL, P+".O2", "DUPLICATE-SKIPS-ONE-MESSAGE-ONLY", pub, e.From.Instrs[len(e.From.Instrs)-1].Pos(), "duplicate edge", "after a duplicate the loop goes on with the next message of the batch (a `break` would drop the rest of the batch while Publish reports success)")
+		}
+	}
 	{
 		var srcs []ErrSource
 		for _, d := range dcalls {
@@ -905,4 +941,15 @@ func sameReceiverCalleesOf(fn *ssa.Function) []*ssa.Function {
 		}
 	}
 	return out
+}
+
+// loopHeaderOfInstr: the innermost block that dominates in's block and is reachable again from in (a loop head), or nil.
+func loopHeaderOfInstr(in ssa.Instruction) *ssa.BasicBlock {
+	after := ReachAfter(in, nil)
+	for b := in.Block(); b != nil; b = b.Idom() {
+		if len(b.Instrs) > 0 && after[b.Instrs[0]] && len(b.Preds) > 1 {
+			return b
+		}
+	}
+	return nil
 }
